@@ -19,6 +19,7 @@ from . import b_strings          # noqa: F401
 from . import c_tracks           # noqa: F401
 if HAVE_Z3:
     from . import l_tracks       # noqa: F401
+    from . import l_bits         # noqa: F401
 from . import c_midifile         # noqa: F401
 from . import b_midifile         # noqa: F401
 from . import c_files            # noqa: F401
